@@ -671,9 +671,13 @@ def check_C06(replay=None):
         inp = bytes(c["input"])
         a = vlib.run_lace(["run", "--minimal"] + _flag(c["stack"]) + [c["path"]], stdin=inp)
         if code != 0:
-            return {"ev": "runpair", "tag": c["tag"], "asm": [a[0], "no-object"], "obj": [code, "compile-failed"], "src": c["src"]}
+            return {"ev": "runpair", "tag": c["tag"], "asm": [a[0], "no-object"], "obj": [code, "compile-failed"], "full": [a[0], "no-object"], "src": c["src"]}
         o = vlib.run_lace(["run", "--minimal"] + _flag(c["stack"]) + [dest], stdin=inp)
-        return {"ev": "runpair", "tag": c["tag"], "asm": [a[0], _norm_out(a[1], [c["path"]])], "obj": [o[0], _norm_out(o[1], [dest])], "src": c["src"]}
+        # without --minimal the program's own output is the same text (the REG trap has a different, tabular format)
+        uses_reg = any(it["k"] == "reg" for it in c["ast"])
+        f = vlib.run_lace(["run"] + _flag(c["stack"]) + [c["path"]], stdin=inp) if not uses_reg else a
+        return {"ev": "runpair", "tag": c["tag"], "asm": [a[0], _norm_out(a[1], [c["path"]])], "obj": [o[0], _norm_out(o[1], [dest])],
+                "full": [f[0], _norm_out(f[1], [c["path"]])], "src": c["src"]}
     pairs = parallel(pair, man2, 8)
     # programs that do not assemble have no object file: nothing to compare
     events += [p for p in pairs if p["obj"][1] != "compile-failed"]
